@@ -79,6 +79,22 @@ NEEDS = {
  'C15d': ('BasicTransform.__init__ stores p = 1.0 when always_apply is set', 'OneOf / SomeOf with a child built with always_apply=True and p != 1 (selection weights)'),
  'C18d': ('median_blur no longer forwards cval', 'MedianBlur(mode="constant", cval != 0): voxels near a face'),
  'C20d': ('CoarseDropout.__init__ defaults min_depth to max_height', 'CoarseDropout with only the max sizes given and max_depth > max_height'),
+ 'C10d': ('convert_bboxes_from_dicaugment passes (cols, rows) to the per-box conversion', 'pixel-format boxes through Compose on a frame with rows != cols, no transform firing'),
+ 'C17d': ('random_flip(d=-1) uses np.flip(img) over every axis, channels included', 'Flip with code -1 on an H x W x D x C image whose channels differ'),
+ # ---- fifth wave ----
+ 'C01e': ('Rotate.apply_to_mask no longer passes crop_to_border', 'Rotate(crop_to_border=True) with a mask-type target'),
+ 'C02e': ('bbox_shift_scale_rotate sizes the crop_to_border frame without the scale', 'ShiftScaleRotate(crop_to_border=True) with a scale different from 1, boxes'),
+ 'C12e': ('downscale (4-D branch) takes the inverse depth factor from the down-scaled width (same edit as C08d, produced independently for C12)', 'Downscale on a non-cubic H x W x D x C image'),
+ 'C13e': ('fill_applied marks a container applied from its direct children only; OneOf replays only when marked applied', 'ReplayCompose -> OneOf -> Sequential / Compose -> leaf'),
+ 'C14e': ('Downscale._to_dict writes the upscale order from the downscale order', 'Downscale with different down / up orders, serialised'),
+ 'C18e': ('GaussNoise tests `if self.apply_to_channel_idx:` (falsy for channel 0)', 'GaussNoise(apply_to_channel_idx=0) on a multi-channel image'),
+ # ---- sixth wave ----
+ 'C03e': ('keypoint_rot90 yz factor 3 mirrors against slices instead of rows', 'RandomRotate90(axes="yz") factor 3 on a volume with rows != slices, keypoints'),
+ 'C05e': ('CoarseDropout.apply_to_keypoints re-attaches the trailing fields by output position', 'CoarseDropout dropping a keypoint that precedes a survivor, keypoints with label fields or inline fields'),
+ 'C06e': ('SetPixelSpacing.apply uses `interpolation or self.interpolation` (0 is falsy)', 'SetPixelSpacing with image order >= 1 and a multi-label mask'),
+ 'C07e': ('RandomRotate90 maps "xz" to axes (2, 1)', 'RandomRotate90(axes="xz") with an odd factor: image rotated the other way'),
+ 'C16e': ('_BaseRandomSizedCrop.apply_to_dicom passes the row factor as scale_x', 'RandomSizedCrop with different row and column factors, dicom target'),
+ 'C20e': ('PixelDropout.apply_to_mask tests `if not self.mask_drop_value`', 'PixelDropout(mask_drop_value=0) with a mask'),
  'C20b': ('GridDropout loops k over range(height // unit_depth + 1)', 'GridDropout on a volume whose depth exceeds its height by a grid unit or more'),
 }
 detected = json.load(open(os.path.join(V, 'seeded', 'detected.json'))) if os.path.exists(os.path.join(V, 'seeded', 'detected.json')) else {}
